@@ -523,6 +523,24 @@ func (st *State) execGo(fr *Frame, x *ssa.Go) bool {
 	cntName := "G|cnt|go:" + name
 	e.ghostInit[cntName] = "(>= $ 0)"
 	n := st.arr(cntName, "Int")
+	// the arguments of the spawned call are logged like those of a call-out (receiver at 0, parameters from 1)
+	if fv.F != nil {
+		shift := 1
+		if fv.F.Fn.Signature.Recv() != nil {
+			shift = 0
+		}
+		for i, av := range x.Call.Args {
+			a := st.val(fr, av)
+			for j, cp := range e.flatten(a.T) {
+				if j >= len(a.C) {
+					break
+				}
+				nm := fmt.Sprintf("G|arg|go:%s|%d%s", name, i+shift, cp.Path)
+				arr := st.arr(nm, arrSort(cp.Sort))
+				st.setArr(nm, arrSort(cp.Sort), store(arr, n, a.C[j]))
+			}
+		}
+	}
 	st.setArr(cntName, "Int", fmt.Sprintf("(+ %s 1)", n))
 	st.onGo(fr, x, fv)
 	return true
